@@ -19,11 +19,12 @@ PROBES = {
     "C07": ["strategy_update", "asymmetric_metric", "order_sensitive_scorer", "with_X",
             "return_data", "clock_backwards_seen", "initial_window", "gapped_fh",
             "no_leak_checked", "honest_recomputation_checked", "prefitted_forecaster",
+            "missing_values_in_training_window",
             "x_consuming_forecaster"],
     "C08": ["tie_in_best_score", "greater_is_better", "nested_param_names", "multiplexer_grid",
             "randomized_search", "refit_false", "interleave_schedule", "pre_dispatch_window",
             "lockstep_history_checked", "sibling_schedule_checked", "list_of_grids",
-            "random_state_instance", "tie_not_involving_first"],
+            "random_state_instance", "tie_not_involving_first", "second_fit_other_grid"],
 }
 FAULT_KINDS = {
     "C07": ["clock_jump_fwd", "clock_jump_back"],
@@ -141,6 +142,10 @@ def generate(prop, rng, tier):
                                   "neg_mae", "skill"]),
             "with_X": with_X, "return_data": rng.random() < 0.4,
             "prefit": rng.random() < 0.25,
+            # missing values early in the series (NaiveForecaster(last) accepts them)
+            "nans": spec == {"kind": "naive", "strategy": "last", "sp": 1, "window_length": None}
+            or (spec["kind"] == "naive" and spec.get("strategy") == "last" and spec.get("sp", 1) == 1
+                and rng.random() < 0.6),
             "clock": {"seed": rng.randint(0, 10 ** 6), "jump_every": rng.choice([0, 0, 3, 5]),
                       "jump_hours": rng.choice([-5, -1, 2, 100])},
         }
@@ -197,6 +202,7 @@ def generate(prop, rng, tier):
         "n_jobs": rng.choice([None, 1, 2, 2, 3, 4]),
         "pre_dispatch": rng.choice([None, 1, 2, "2*n_jobs", "n_jobs"]),
         "refit": rng.random() < 0.8,
+        "second_fit": rng.random() < 0.3,
         "strategy": rng.choice(["refit", "refit", "update"]),
         "sched": {"mode": rng.choice(["fifo", "ooo", "interleave", "interleave"]),
                   "seed": rng.randint(0, 10 ** 6), "p": rng.choice([0.01, 0.05, 0.1, 0.3])},
@@ -234,6 +240,9 @@ def execute_c07(scen):
     res = RunResult()
     s = scen["series"]
     y = C.make_series(s["seed"], scen["n"], s["origin"], s["index"], sp=s["sp"])
+    if scen.get("nans") and scen["cv"]["window"] >= 4 and not scen.get("prefit"):
+        y.iloc[[1, 2]] = np.nan   # inside the early training windows, never last, never tested
+        res.probe("missing_values_in_training_window")
     X = _make_X(y, s["seed"] + 1) if scen["with_X"] else None
     inner = peers.XIncrementForecaster() if scen["spec"]["kind"] == "xinc" else C.build(scen["spec"])
     spy = peers.SpyForecaster(inner, tag="F")
@@ -590,6 +599,48 @@ def execute_c08(scen):
           exc=type(e).__name__)
         return res
     res.nontrivial = (sc.n_tasks >= 2 and sc.mode != "fifo" and len(cands) >= 2) or scen["refit"]
+    # ---- the same tuner object fitted again with a reconfigured grid: rows must still be
+    # those of independent evaluations of clones of the *configured* forecaster
+    if scen.get("second_fit") and scen["search"] == "grid" and isinstance(scen["grid"], dict) \
+            and len(scen["grid"]) >= 2:
+        drop = sorted(scen["grid"])[-1]
+        grid2 = {k: v for k, v in scen["grid"].items() if k != drop}
+        from sklearn.model_selection import ParameterGrid
+        cands2 = list(ParameterGrid(grid2))
+        s4 = sched.Scheduler(scen["sched"]["mode"], scen["sched"]["seed"] + 17, scen["sched"]["p"])
+        try:
+            with sched.scenario_schedule(s4), patched_evaluate_clock(SimClock(3)):
+                tuner.set_params(param_grid=grid2)
+                tuner.fit(y)
+            res.probe("second_fit_other_grid")
+            t2 = tuner.cv_results_
+            with peers.paused():
+                s5 = sched.Scheduler("fifo", 0)
+                with sched.scenario_schedule(s5):
+                    for i2, params in enumerate(cands2):
+                        f = clone(C.build(scen["base"])).set_params(**params)
+                        try:
+                            t = evaluate(f, C.build_cv(scen["cv"]), y, strategy=scen["strategy"],
+                                         scoring=build_metric(scen["metric"]))
+                        except Exception:
+                            continue
+                        col = [c for c in t.columns if c.startswith("test_")][0]
+                        em = float(t[col].mean())
+                        got = float(t2.iloc[i2][mean_col])
+                        if not np.isclose(got, em, rtol=1e-9, atol=1e-12):
+                            v("second_fit_row_differs", "second fit (grid without %r), candidate %s: "
+                              "cv_results_ mean %.10g, an independent evaluate() of a clone of the "
+                              "configured forecaster gives %.10g" % (drop, params, got, em))
+                            res.digest = "second"
+                            return res
+            # restore the first configuration and its results for the rest of the scenario
+            with sched.scenario_schedule(sched.Scheduler("fifo", 0)), patched_evaluate_clock(SimClock(4)):
+                tuner.set_params(param_grid=scen["grid"])
+                tuner.fit(y)
+        except Exception as e:  # noqa
+            v("fit_raised", "second tuner.fit raised %s: %s" % (type(e).__name__, str(e)[:200]),
+              exc=type(e).__name__)
+            return res
     # ---- refit / no refit
     if out is not tuner:
         v("fit_not_self", "fit did not return the tuner")
@@ -713,6 +764,8 @@ def shrink_candidates(prop, scen):
     if s["history"]:
         for cand in ddmin_list(s["history"]):
             yield dict(s, history=cand)
+    if s.get("second_fit"):
+        yield dict(s, second_fit=False)
     if s["sched"]["mode"] == "interleave":
         yield dict(s, sched=dict(s["sched"], mode="ooo"))
     if s["sched"]["mode"] != "fifo":
